@@ -3,13 +3,20 @@ package main
 import (
 	"bytes"
 	"fmt"
+	"net"
+	"os"
 	"sort"
 	"strconv"
 	"strings"
+	"sync"
 	"time"
 
 	"github.com/samaritan-proxy/samaritan/host"
+	"github.com/samaritan-proxy/samaritan/pb/common"
+	"github.com/samaritan-proxy/samaritan/pb/config/protocol"
 	pbredis "github.com/samaritan-proxy/samaritan/pb/config/protocol/redis"
+	"github.com/samaritan-proxy/samaritan/pb/config/service"
+	"github.com/samaritan-proxy/samaritan/proc"
 	"github.com/samaritan-proxy/samaritan/proc/redis"
 
 	"verifharness/hx"
@@ -213,6 +220,7 @@ func (c *c14) strat(f []string) string {
 // known; a whole SCAN iteration from cursor 0 (every node answers cursor 0 and one key)
 //
 //	-> targets=<M<i> | R<i>.<j> | X, in call order> keys=<number of keys returned>
+//
 // an optional fourth argument gives the owner of each of eight equal slot ranges ("00221133": a digit per range, '-' = no node lists it);
 // without it the masters own equal contiguous shares.
 func (c *c14) scan(st, nmS, nrS, own string) string {
@@ -347,6 +355,135 @@ func (c *c14) flags(st, fa, fb string) string {
 	return "reads=" + strings.Join(out, ",")
 }
 
+// c14.demoted   two nodes that behave like Redis nodes in this respect: a replica answers a read for its master's slots with MOVED unless the
+// connection has been put into READONLY mode, then it serves the read.  Node A is the master, B its replica; the proxy (strategy MASTER)
+// has loaded the routing table and served some reads; then the roles are swapped by a manual failover, both nodes stay up; 40 more GETs.
+//
+//	-> replica-reads=<reads executed by the node that is a replica at that moment>/<reads> moved=<MOVED replies the nodes sent>
+func (c *c14) demoted() string {
+	var mu sync.Mutex
+	master := 0
+	replicaReads, reads, moved := 0, 0, 0
+	lns := make([]net.Listener, 2)
+	for i := range lns {
+		ln, err := net.Listen("tcp", "127.0.0.1:0")
+		if err != nil {
+			return "sockerr"
+		}
+		defer ln.Close()
+		lns[i] = ln
+	}
+	addr := func(i int) string { return lns[i].Addr().String() }
+	nodesText := func() string {
+		mu.Lock()
+		defer mu.Unlock()
+		m, r := master, 1-master
+		return fmt.Sprintf("id%d %s@1 master - 0 0 1 connected 0-16383\nid%d %s@1 slave id%d 0 0 1 connected\n", m, addr(m), r, addr(r), m)
+	}
+	for i := range lns {
+		go func(me int) {
+			for {
+				c, err := lns[me].Accept()
+				if err != nil {
+					return
+				}
+				go func(c net.Conn) {
+					defer c.Close()
+					readonly := false
+					dec := redis.VerifNewDecoder(c, 4096)
+					for {
+						v, err := dec.Decode()
+						if err != nil || len(v.Array) == 0 {
+							return
+						}
+						cmd := strings.ToLower(string(v.Array[0].Text))
+						rep := "-ERR unknown\r\n"
+						switch cmd {
+						case "readonly":
+							readonly = true
+							rep = "+OK\r\n"
+						case "cluster":
+							t := nodesText()
+							rep = fmt.Sprintf("$%d\r\n%s\r\n", len(t), t)
+						case "get":
+							mu.Lock()
+							isMaster := master == me
+							switch {
+							case isMaster:
+								reads++
+								rep = "$1\r\nv\r\n"
+							case readonly:
+								reads++
+								replicaReads++
+								rep = "$1\r\nv\r\n"
+							default:
+								moved++
+								rep = "-MOVED 1 " + addr(master) + "\r\n"
+							}
+							mu.Unlock()
+						}
+						if _, err := c.Write([]byte(rep)); err != nil {
+							return
+						}
+					}
+				}(c)
+			}
+		}(i)
+	}
+	ct := time.Second
+	cfg := &service.Config{
+		Listener:        &service.Listener{Address: &common.Address{Ip: "127.0.0.1", Port: 0}},
+		ConnectTimeout:  &ct,
+		Protocol:        protocol.Redis,
+		ProtocolOptions: &service.Config_RedisOption{RedisOption: &protocol.RedisOption{ReadStrategy: pbredis.ReadStrategy_MASTER}},
+	}
+	c14seq++
+	p, err := proc.New(fmt.Sprintf("verif-c14d-%d-%d", os.Getpid(), c14seq), cfg, []*host.Host{host.New(addr(0)), host.New(addr(1))})
+	if err != nil {
+		return "procerr"
+	}
+	defer hx.DropScopes("service." + strings.Replace(p.Name(), ".", "_", -1) + ".")
+	if err := p.Start(); err != nil {
+		return "procerr"
+	}
+	defer p.Stop()
+	time.Sleep(2 * time.Millisecond)
+	for i := 0; i < 400 && p.Address() == ""; i++ {
+		time.Sleep(time.Millisecond)
+	}
+	time.Sleep(100 * time.Millisecond)
+	cl, err := hx.DialClient(p.Address())
+	if err != nil {
+		return "sockerr"
+	}
+	defer cl.C.Close()
+	get := func(i int) bool {
+		cl.C.SetDeadline(time.Now().Add(2 * time.Second))
+		v, err := cl.Do([]byte("get"), []byte(fmt.Sprintf("k%d", i)))
+		return err == nil && string(v.Text) == "v"
+	}
+	for i := 0; i < 10; i++ {
+		if !get(i) {
+			return "setup-failed"
+		}
+	}
+	mu.Lock()
+	if replicaReads != 0 {
+		mu.Unlock()
+		return "setup-failed(replica-read-before-the-swap)"
+	}
+	master = 1
+	reads = 0
+	mu.Unlock()
+	for i := 0; i < 40; i++ {
+		get(100 + i)
+		time.Sleep(10 * time.Millisecond)
+	}
+	mu.Lock()
+	defer mu.Unlock()
+	return fmt.Sprintf("replica-reads=%d/%d moved=%d", replicaReads, reads, moved)
+}
+
 var c14seq int
 
 func (c *c14) Exec(op string) string {
@@ -360,6 +497,9 @@ func (c *c14) Exec(op string) string {
 			own = f[4]
 		}
 		return recoverStr(func() string { return c.scan(f[1], f[2], f[3], own) })
+	}
+	if len(f) == 1 && f[0] == "c14.demoted" {
+		return recoverStr(c.demoted)
 	}
 	if len(f) == 4 && f[0] == "c14.flags" {
 		return recoverStr(func() string { return c.flags(f[1], f[2], f[3]) })
